@@ -200,6 +200,19 @@ func init() {
 			fmt.Fprintf(out, "%s %s\n", f[0], runSshd(unhex(f[1]), unhex(f[2]), "", f[3] == "ok", f[4], "direct"))
 		}
 	}
+	// c07 <id> <pidhex> <padhex> <msghex> <ok|fail> <ready|cancel>  ->  "<framed obs> <direct obs>"
+	modes["c07"] = func(in *bufio.Scanner, out *bufio.Writer) {
+		for in.Scan() {
+			f := strings.Fields(in.Text())
+			if len(f) < 6 {
+				continue
+			}
+			pid, pad, msg := unhex(f[1]), unhex(f[2]), unhex(f[3])
+			framed := runSshd("", "", pid+pad+msg+"\n", f[4] == "ok", f[5], "syslog")
+			direct := runSshd(pid, msg, "", f[4] == "ok", f[5], "direct")
+			fmt.Fprintf(out, "%s %s %s\n", f[0], framed, direct)
+		}
+	}
 	// syslog <id> <framedhex> <ok|fail> <ready|cancel>
 	modes["syslog"] = func(in *bufio.Scanner, out *bufio.Writer) {
 		for in.Scan() {
